@@ -64,7 +64,7 @@ def nontriv(scen, obs):
 
 
 def scens(ctx, n):
-    bias = {'p_contract': 0.0, 'p_faults': 0.2, 'p_small_consts': 0.6, 'files': [1, 1, 2]}
+    bias = {'p_contract': 0.0, 'p_faults': 0.2, 'p_small_consts': 0.6, 'files': [1, 1, 2], 'p_endless': 0.1}
     out = []
     for _ in range(n):
         s = D.gen_scenario(ctx.rng, bias)
@@ -160,16 +160,16 @@ def run(ctx):
             judge_start_with(ctx, o['scenario'], 0)
             print('replayed ->', 'fails' if ctx.violations else 'holds')
             return 1 if ctx.violations else 0
-        D.replay_drv(ctx, o, [oracle, oracle_zero])
+        D.replay_drv(ctx, o, [oracle, oracle_zero, D.oracle_giveup])
         return 1 if ctx.violations else 0
     ctx.lean_gate(OBLIGATIONS)
     diffs = []
-    rows = D.sweep(ctx, scens(ctx, 400 if ctx.tier == 'quick' else 6000), [oracle, oracle_zero], diffs, nontriv)
+    rows = D.sweep(ctx, scens(ctx, 400 if ctx.tier == 'quick' else 6000), [oracle, oracle_zero, D.oracle_giveup], diffs, nontriv)
     start_with_part(ctx, diffs)
     ctx.sample({'scenario_key': D.scen_key(rows[3][0]), 'cfg': rows[3][0]['cfg'], 'consts': rows[3][0]['consts'], 'observed': rows[3][2]})
 
     def search(budget):
-        D.sweep(ctx, scens(ctx, 1500), [oracle, oracle_zero], [], nontriv)
+        D.sweep(ctx, scens(ctx, 1500), [oracle, oracle_zero, D.oracle_giveup], [], nontriv)
     conclude(ctx, diffs, search)
     ctx.assumptions += ['--start-with-pass, skip_initial and missing prerequisites are part of the L2 model (D.runPassG / D.reduceG) and of the correspondence; the named pass is identified by repr(pass), as run_pass does',
                         'the give-up limit is part of the model (check: e.order > giveup) and of the scenario generator (small patched GIVEUP_CONSTANT, endless passes in C09)']
